@@ -67,7 +67,7 @@ theorem hexRun_sub : ∀ (cs : List Bytes) (acc : Nat) (ovf : Bool), ∀ x ∈ (
     · exact h
 
 /-- one escape sequence: what is pushed is well-formed, what remains is a part of the input -/
-theorem escapeOne_ok (U : UFacts) (checked : Bool) {cs rest : List Bytes} {o : Bytes}
+theorem escapeOne_ok (U : UFacts) (checked : EscCfg) {cs rest : List Bytes} {o : Bytes}
     (h : escapeOne U checked cs = .ok (o, rest)) : validUtf8 o = true ∧ ∀ x ∈ rest, x ∈ cs := by
   cases cs with
   | nil => simp [escapeOne] at h
@@ -140,18 +140,22 @@ theorem escapeOne_ok (U : UFacts) (checked : Bool) {cs rest : List Bytes} {o : B
                           · rename_i c2 cs2
                             split at h
                             · split at h
-                              · rename_i hsc
-                                simp only [Except.ok.injEq, Prod.mk.injEq] at h
-                                obtain ⟨rfl, rfl⟩ := h
-                                refine ⟨utf8Enc_valid hsc, fun x hx => ?_⟩
-                                have : x ∈ cs1 := hsub x (List.mem_cons_of_mem _ hx)
-                                exact List.mem_cons_of_mem _ (List.mem_cons_of_mem _ this)
                               · cases h
+                              · split at h
+                                · cases h
+                                · split at h
+                                  · rename_i hsc
+                                    simp only [Except.ok.injEq, Prod.mk.injEq] at h
+                                    obtain ⟨rfl, rfl⟩ := h
+                                    refine ⟨utf8Enc_valid hsc, fun x hx => ?_⟩
+                                    have : x ∈ cs1 := hsub x (List.mem_cons_of_mem _ hx)
+                                    exact List.mem_cons_of_mem _ (List.mem_cons_of_mem _ this)
+                                  · cases h
                             · cases h
               · cases h
 
 /-- escape processing keeps well-formedness -/
-theorem unescapeLoop_valid (U : UFacts) (checked : Bool) :
+theorem unescapeLoop_valid (U : UFacts) (checked : EscCfg) :
     ∀ (fuel : Nat) (cs : List Bytes) (out : Bytes), (∀ c ∈ cs, validUtf8 c = true) →
       unescapeLoop U checked fuel cs = .ok out → validUtf8 out = true
   | 0, _, out, _, h => by simp only [unescapeLoop, Except.ok.injEq] at h; rw [← h]; exact valid_nil
@@ -180,7 +184,7 @@ theorem unescapeLoop_valid (U : UFacts) (checked : Bool) :
         exact valid_append (hcs c (by simp)) (unescapeLoop_valid U checked fuel cs tail
           (fun x hx => hcs x (List.mem_cons_of_mem _ hx)) hr)
 
-theorem unescape_valid (U : UFacts) (checked : Bool) {lit out : Bytes} (hv : validUtf8 lit = true)
+theorem unescape_valid (U : UFacts) (checked : EscCfg) {lit out : Bytes} (hv : validUtf8 lit = true)
     (h : unescape U lit checked = .ok out) : validUtf8 out = true :=
   unescapeLoop_valid U checked _ _ out (charsOf_valid hv) h
 
